@@ -27,7 +27,7 @@ done
 if [[ $H == fz_* ]]; then L="-fsanitize=fuzzer,address,undefined"; R=""; else L="-fsanitize=address,undefined"; R="-lrapidcheck"; fi
 clang++-14 $FLAGS $INC /verif/harness/$H.cpp -o "$T/$H" $L -fopenmp "$T/libgstlearn.a" $B/libcsparse.a $B/libgmtsph.a -lnlopt $R
 set +e
-EXCL=$(cat /verif/agents/C03/known_keys.txt)
+EXCL=$(cat ${KNOWN:-/verif/agents/C03/known_keys.txt})
 DUMMY=$(python3 - <<PY
 import json
 k=json.load(open('/verif/known_findings.json'))
